@@ -277,6 +277,12 @@ func (vt *Model) update(seq ansi.Sequence) {
 			if len(seq.Intermediate) > 0 {
 				return
 			}
+			if !sixelSane(seq.Data) {
+				// The decoder loops over repeat counts and
+				// allocates what the raster attributes ask for
+				log.Error("sixel with an unreasonable repeat count or size, ignored")
+				return
+			}
 			// Write the raw sequence to the writer
 			buf := bytes.NewBuffer(nil)
 			// DCS
@@ -310,6 +316,28 @@ func (vt *Model) update(seq ansi.Sequence) {
 	case ansi.APC:
 		vt.postEvent(EventAPC{Payload: seq.Data})
 	}
+}
+
+// maxSixelSize is the largest width, height or repeat count, in pixels, we
+// accept from a sixel image
+const maxSixelSize = 1 << 14
+
+// sixelSane reports whether every number in the sixel data (repeat counts,
+// raster attributes, colour definitions) is small enough to hand the data to
+// the decoder
+func sixelSane(data []rune) bool {
+	n := 0
+	for _, r := range data {
+		if r < '0' || r > '9' {
+			n = 0
+			continue
+		}
+		n = n*10 + int(r-'0')
+		if n > maxSixelSize {
+			return false
+		}
+	}
+	return true
 }
 
 func (vt *Model) String() string {
